@@ -58,6 +58,15 @@ func nshards() int      { return max(1, envInt("VERIF_NSHARDS", 1)) }
 // mine reports whether enumeration index i belongs to this shard.
 func mine(i int) bool { return i%nshards() == shard() }
 
+// shardLabel names the process in replay file names: the shard number, or "32" for the unsharded
+// pass of the 32-bit build.
+func shardLabel() string {
+	if os.Getenv("VERIF_ARCH32") != "" {
+		return "32"
+	}
+	return fmt.Sprint(shard())
+}
+
 // ---------------------------------------------------------------------------
 // evidence
 
@@ -147,6 +156,9 @@ func (e *Ev) LabelSample(class string, c any) {
 func (e *Ev) Exhaustive(name string, size int64) {
 	if shard() != 0 {
 		return // the enumeration is split over the shards; its size is reported once
+	}
+	if os.Getenv("VERIF_ARCH32") != "" {
+		name += "@32bit_build"
 	}
 	e.mu.Lock()
 	e.exhaustive[name] += size
@@ -267,7 +279,7 @@ func (e *Ev) saveReplay(check string, c any, v *Violation) string {
 	b, _ := json.MarshalIndent(rf, "", " ")
 	dir := replayDir()
 	_ = os.MkdirAll(dir, 0o755)
-	p := filepath.Join(dir, fmt.Sprintf("%s-%s-s%d.json", e.Prop, check, shard()))
+	p := filepath.Join(dir, fmt.Sprintf("%s-%s-s%s.json", e.Prop, check, shardLabel()))
 	_ = os.WriteFile(p, b, 0o644)
 	if _, seen := printedViolation.LoadOrStore(p, true); !seen {
 		fmt.Printf("VIOLATION property=%s replay=%s\n", e.Prop, p)
@@ -319,7 +331,7 @@ func (b *enumBudget) Check(check string, c any, v *Violation) bool {
 	out, _ := json.MarshalIndent(rf, "", " ")
 	dir := replayDir()
 	_ = os.MkdirAll(dir, 0o755)
-	p := filepath.Join(dir, fmt.Sprintf("%s-%s-s%d-e%d.json", b.e.Prop, check, shard(), b.n))
+	p := filepath.Join(dir, fmt.Sprintf("%s-%s-s%s-e%d.json", b.e.Prop, check, shardLabel(), b.n))
 	_ = os.WriteFile(p, out, 0o644)
 	fmt.Printf("VIOLATION property=%s replay=%s\n", b.e.Prop, p)
 	b.t.Errorf("%s: %s\n  replay: %s", check, v.Msg, p)
